@@ -37,3 +37,15 @@ Theorem C04_nested :
                                               de_inner inner_doc = Some raw /\ construct lib d raw = OOk v) l vs.
 Proof. exact traverse_sound. Qed.
 Print Assumptions C04_nested.
+
+(* ---- JSON, concretely (Sem/Json): an integer document is accepted only if it denotes a value of
+   the inner type (no wrap), and a string document only yields scalar values ------------------- *)
+From NV Require Import Base.IntTy Sem.Json Lemmas.JsonLemmas.
+Theorem C04_json_int_in_type :
+  forall (t : int_ty) (s : list N) (z : Z), json_read_int t s = Some z -> in_ty t z = true.
+Proof. exact json_read_int_sound. Qed.
+Theorem C04_json_string_scalar :
+  forall (t s : list N), json_read_string t = Some s ->
+    Forall (fun c => scalar c = true) t -> Forall (fun c => scalar c = true) s.
+Proof. exact json_read_string_scalar. Qed.
+Print Assumptions C04_json_int_in_type.
